@@ -14,7 +14,7 @@ pub(crate) enum Fill {
 }
 
 pub(crate) fn mk_limit(l: Option<usize>) -> Option<ScrollbackLimit> {
-    l.map(|l| ScrollbackLimit { soft: l, hard: l + l / 10 })
+    l.map(|l| ScrollbackLimit { soft: l, hard: l.saturating_add(l / 10) })
 }
 
 /// a buffer with `sb` scrollback lines above a view of `rows` lines, all `cols` wide; the last
@@ -103,7 +103,7 @@ pub(crate) fn assert_buffer_inv(b: &Buffer) {
     assert!(b.lines[i].cells.len() == b.cols, "[C02][C01] every line has exactly cols cells");
     assert!(!b.lines[b.lines.len() - 1].wrapped, "[C02][C01] the last line is never marked soft-wrapped");
     if let Some(l) = &b.scrollback_limit {
-        assert!(l.hard == l.soft + l.soft / 10, "[C13][C01] the hard limit is the soft limit plus 10%");
+        assert!(l.hard == l.soft.saturating_add(l.soft / 10), "[C13][C01] the hard limit is the soft limit plus 10%");
         if b.lines.len() - b.rows > l.hard {
             assert!(b.trim_needed, "[C13][C01] exceeding the retention bound is always flagged for trimming");
         }
